@@ -525,6 +525,7 @@ func runC04(w *World, r *Report) {
 	rulePairBool(w, r)
 	ruleStepArgs(w, r, ruleStepRes(w, r, "(*Expr).TryEval"))
 	ruleCachedGet(w, r)
+	ruleFastProxy(w, r)
 }
 
 // ---- C05 ----------------------------------------------------------------------
@@ -537,6 +538,7 @@ func runC05(w *World, r *Report) {
 	ruleFastProxy(w, r)
 	rulePair(w, r)
 	ruleBits(w, r)
+	rulePairBool(w, r)
 	ruleStepArgs(w, r, ruleStepRes(w, r, "(*Expr).TryEval"))
 	ruleCachedGet(w, r)
 }
